@@ -222,6 +222,74 @@ def gen_program(fn, contract, db, inputs_bytes):
     return '\n'.join(lines) + '\n'
 
 
+def gen_mem_program(fn, contract, db, inputs_bytes, n_value):
+    """loads / stores: the addressed elements are placed flush against an inaccessible page (once ending at the page
+    boundary, once starting on it); a fault, a failed ensures clause or a changed sentinel byte confirms"""
+    S = db['structs']
+    mem = contract.mem
+    ect, W = mem['elem'], mem['W']
+    cxxe = families.CXX_ELEM[families.CT2ELEM[ect]]
+    lines = ['// generated replay (memory footprint): real AVEL code next to PROT_NONE pages',
+             '#include <avel/Avel.hpp>', '#include <cstring>', '#include <cstdio>', '#include <cstdint>', '#include <csignal>', '#include <csetjmp>',
+             '#include <sys/mman.h>', '#include <unistd.h>', '#define AVM_NATIVE 1', '#include "avm_native.h"', '#include "spec_int.h"', '#include "spec_float.h"']
+    for nm in struct_order(S):
+        lines.append('typedef struct %s { %s } %s;' % (nm, ' '.join(Emitter.decl(t, f) + ';' for f, t in S[nm]), nm))
+    lines.append('template<class A, class B> static void cp(A& a, const B& b) { static_assert(sizeof(A) == sizeof(B), "twin size"); std::memcpy(&a, &b, sizeof(A)); }')
+    lines.append('static sigjmp_buf jb; static void on_fault(int) { siglongjmp(jb, 1); }')
+    lines.append('int main() {')
+    lines.append('  int fails = 0; const long pg = sysconf(_SC_PAGESIZE);')
+    lines.append('  std::signal(SIGSEGV, on_fault); std::signal(SIGBUS, on_fault);')
+    lines.append('  static const unsigned char init_b[] = {%s};' % hexbytes(inputs_bytes.get('init', bytes(W * sizeof(ect, S)))))
+    lines.append('  const std::uint32_t n_in = %du; const std::uint32_t cnt = n_in < %du ? n_in : %du;' % (n_value, W, W))
+    lines.append('  const std::uint32_t objn = %s;' % ('%du' % W if mem.get('aligned') else 'cnt'))
+    vct = None
+    if mem['kind'] == 'store':
+        vct = fn['params'][1]['ctype']
+        lines.append('  static const unsigned char v_b[] = {%s};' % hexbytes(inputs_bytes.get('a1', bytes(sizeof(vct, S)))))
+        lines.append('  %s v_real; std::memcpy(&v_real, v_b, sizeof v_real); %s %s; std::memcpy(&%s, v_b, sizeof(%s));' % (
+            cxx_type(vct, S), vct, fn['params'][1]['name'], fn['params'][1]['name'], vct))
+    pn = fn['params'][0]['name']
+    if mem.get('nparam'):
+        lines.append('  const std::uint32_t %s = n_in;' % fn['params'][-1]['name'])
+    lines.append('  for (int placement = 0; placement < 2; placement++) {')
+    lines.append('    unsigned char* region = (unsigned char*)mmap(0, 3 * pg, PROT_READ | PROT_WRITE, MAP_PRIVATE | MAP_ANONYMOUS, -1, 0);')
+    lines.append('    std::memset(region, 0xA5, 3 * pg); mprotect(region, pg, PROT_NONE); mprotect(region + 2 * pg, pg, PROT_NONE);')
+    lines.append('    const size_t bytes = (size_t)objn * sizeof(%s);' % cxxe)
+    lines.append('    unsigned char* base = placement == 0 ? region + 2 * pg - bytes : region + pg;')
+    if mem.get('aligned'):
+        lines.append('    if (((uintptr_t)base) %% %d != 0) continue;' % (W * sizeof(ect, S)))
+    lines.append('    std::memcpy(base, init_b, bytes);')
+    lines.append('    %s* %s = (%s*)base;' % (cxxe, pn, cxxe))
+    lines.append('    unsigned char before[4096 * 3]; std::memcpy(before + pg, region + pg, pg);')
+    lines.append('    if (sigsetjmp(jb, 1) == 0) {')
+    call = contract.cxx.replace('{0}', pn).replace('{1}', 'v_real' if mem['kind'] == 'store' else 'n_in').replace('{2}', 'n_in')
+    if mem['kind'] == 'load':
+        lines.append('      auto ret_real = %s;' % call)
+        lines.append('      %s ret_c; cp(ret_c, ret_real);' % fn['ret'])
+    else:
+        lines.append('      %s;' % call)
+    for lab, e in contract.ensures:
+        ee = old_subst_mem(e, pn, ect)
+        ee = ee.replace('__CPROVER_return_value', 'ret_c')
+        lines.append('      if (!(%s)) { std::printf("ENSURES FAILED (placement %%d): %s\\n", placement); fails++; }' % (ee, lab.replace('"', "'").replace('%', '%%')))
+    lines.append('      const size_t wr = (size_t)cnt * sizeof(%s);' % cxxe)
+    lines.append('      for (long i = 0; i < pg; i++) { unsigned char* q = region + pg + i; bool inside = q >= base && q < base + wr;')
+    lines.append('        if (!inside && *q != before[pg + i]) { std::printf("BYTE OUTSIDE THE ADDRESSED ELEMENTS CHANGED at offset %ld (placement %d)\\n", (long)(q - base), placement); fails++; break; } }')
+    lines.append('    } else { std::printf("FAULT: the call touched inaccessible memory next to the addressed elements (placement %d: elements %s)\\n", placement, placement == 0 ? "end at a page boundary" : "start on a page boundary"); fails++; }')
+    lines.append('    munmap(region, 3 * pg);')
+    lines.append('  }')
+    lines.append('  std::printf(fails ? "REPLAY: property violated on the real code (%d)\\n" : "REPLAY: real code satisfies the contract on this input\\n", fails);')
+    lines.append('  return fails ? 1 : 0;')
+    lines.append('}')
+    return '\n'.join(lines) + '\n'
+
+
+def old_subst_mem(expr, pn, ect):
+    """__CPROVER_old(p[i]) -> the byte image saved before the call"""
+    cxxe = families.CXX_ELEM[families.CT2ELEM[ect]]
+    return re.sub(r'__CPROVER_old\(%s\[(\d+)\]\)' % re.escape(pn), lambda m: '(((%s*)(before + pg + (base - (region + pg))))[%s])' % (cxxe, m.group(1)), expr)
+
+
 def build_and_run(program, cfg, workdir, ubsan=True):
     os.makedirs(workdir, exist_ok=True)
     src = os.path.join(workdir, 'replay.cpp')
@@ -265,6 +333,8 @@ def match_known(ob, known):
     for k in known:
         if k.get('family') and k['family'] != ob.contract.family:
             continue
+        if k.get('family_regex') and not re.search(k['family_regex'], ob.contract.family):
+            continue
         if k.get('function_regex') and not re.search(k['function_regex'], ob.ident()):
             continue
         if k.get('configurations') and not set(ob.cfgs) <= set(k['configurations']):
@@ -276,6 +346,40 @@ def match_known(ob, known):
         # the failing input must lie inside the finding's input predicate (checked by the residual obligation, see props.py)
         return k
     return None
+
+
+def residual_requires(ob, k):
+    """C expression excluding the finding's input region for this function instantiation, or None when the region
+    covers the whole domain (e.g. store<N> with N < W).  Placeholders: {pI} parameter I, {tI} template argument I, {W}."""
+    tmpl = k.get('residual_requires')
+    if not tmpl:
+        return None
+    fn = ob.fn
+    t = None
+    for p in fn['params']:
+        tt = families.T(p['ctype'].rstrip('*'), {})
+        m = re.match(r'^(Vec|Mask)_(\w+?)_(\d+)$', p['ctype'].rstrip('*'))
+        if m:
+            t = int(m.group(3))
+            break
+    ctx = {'W': t if t is not None else 0}
+    for i, p in enumerate(fn['params']):
+        ctx['p%d' % i] = p['name']
+    ctx['plast'] = fn['params'][-1]['name'] if fn['params'] else ''
+    for i, ta in enumerate(fn.get('targs', [])):
+        ctx['t%d' % i] = ta
+    variant = 'n' if any(p['ctype'] == 'uint32_t' for p in fn['params'][-1:]) else 'N'
+    e = tmpl.get(variant) if isinstance(tmpl, dict) else tmpl
+    if e is None:
+        return None
+    try:
+        e = e.format(**ctx)
+    except (KeyError, IndexError):
+        return None
+    if re.match(r'^[\d\s<>=!u()&|]+$', e):
+        val = eval(e.replace('u', '').replace('&&', ' and ').replace('||', ' or '))
+        return None if not val else '1'
+    return e
 
 
 def record_and_replay(prop, ob, db, sc):
@@ -309,7 +413,19 @@ def record_and_replay(prop, ob, db, sc):
             rec['inputs_hex'] = {k: v.hex() for k, v in ib.items()}
             rm = inputs.get('__CPROVER_rounding_mode', {}).get('__CPROVER_rounding_mode', {}).get('data')
             rec['rounding_mode'] = rm
-            prog = gen_program(fn, ob.contract, db, ib)
+            if getattr(ob.contract, 'mem', None):
+                ini = inputs.get('init', {}).get('init')
+                ect = ob.contract.mem['elem']
+                ib['init'] = to_bytes(ini, '%s[%d]' % (ect, ob.contract.mem['W']), S)
+                if 'a1' in inputs:
+                    ib['a1'] = merge_assignments('a1', inputs['a1'], fn['params'][1]['ctype'], S)
+                nv = inputs.get('n_in', {}).get('n_in', {})
+                n_value = int(nv.get('bin'), 2) if nv and nv.get('bin') else 0
+                rec['inputs_hex'] = {k: v.hex() for k, v in ib.items()}
+                rec['n'] = n_value
+                prog = gen_mem_program(fn, ob.contract, db, ib, n_value)
+            else:
+                prog = gen_program(fn, ob.contract, db, ib)
             rec['program'] = prog
             res = build_and_run(prog, ob.cfgs[0], sc.path('replay-' + tag))
             rec['replay'] = res
